@@ -17,7 +17,7 @@ mod proofs {
 
     fn tern(x: u8, q: u64) -> u64 { match x { 0 => 0, 1 => 1, _ => q - 1 } }
 
-    // @harness id=C01 tier=thorough unwind=10 timeout=2400 fs=4096
+    // @harness id=C01 tier=thorough unwind=10 timeout=6000 fs=4096
     // @desc BFV decryption of an ARBITRARY size-2 ciphertext under an arbitrary ternary secret key returns round(t * phase / q) mod t coefficient-wise, where phase = c0 + c1*s in Z_q[X]/(X^2+1) (computed by the harness in the coefficient domain); in particular a fresh encryption Delta*m + v with |v| below the threshold decrypts to m. The result plaintext is trimmed to its significant coefficients.
     // @bounds BFV N=2, q={97}, t=3; all ciphertext residues, all ternary keys (NTT form obtained with the real transform); coefficient index symbolic
     // @funcs Decryptor::decrypt, Decryptor::bfv_decrypt, Decryptor::dot_product_ct_sk_array, Decryptor::compute_secret_key_array, RNSTool::decrypt_scale_and_round, polysmallmod::{ntt_p,intt_p,dyadic_product_inplace_p,add_inplace_p}
